@@ -43,6 +43,16 @@ CHECKS = {
         note="Unspecified and skipped: forms without clauses, names read from the enclosing scope and bound later in the "
              "same form, setx or outer reads inside a comprehension in a class body (Python forbids / hides them), "
              ":async clauses."),
+    "C05": dict(
+        engine="bind", level="model_checking", design="5.1, 6/C05",
+        technique="HyBind is Python's argument-binding algorithm in TLA+; TLC enumerates (signature, call) pairs exhaustively "
+                  "for small bounds and by simulation up to 6 parameters, exporting the binding or `rejected`; the spec is "
+                  "validated against CPython's def for every pair, then Hy's defn and call forms are run against it",
+        text="Signatures over positional-only / ordinary / #* args / bare * / keyword-only / #** kwargs with defaults; calls "
+             "over positional, keyword (anywhere among the positionals), #* and #** items; laws on the spec: positional-only "
+             "never bound by keyword, keyword-only never positionally, no supplied value lost.  Docstring and implicit-return "
+             "tables for fn / defn / async defn / generators.",
+        note="Rejection = TypeError, or SyntaxError for a literally repeated keyword."),
     "C06": dict(
         engine="core", level="model_checking", design="5.1, 6/C06",
         technique="let/closure programs with every variable read logged, trace-validated by TLC against HyCore's "
